@@ -65,7 +65,10 @@ RULE_ADDED = (
               'try-point baits). '
               ' '
               'Round 18: every hexadecimal field of every well-formed request once with a 0x an'
-              'd once with a 0X prefix, each on a manager of its own. ')
+              'd once with a 0X prefix, each on a manager of its own. '
+              ' '
+              'Round 19: three shards in eight run with logging configured at INFO / WARNING / '
+              'CRITICAL instead of the shipped DEBUG. ')
 RULE = RULE + " " + RULE_ADDED.strip()
 ASSUMPTIONS = [
     "simulated device keeps to its protocol (firmware-like chunking, well-formed answers)",
@@ -511,12 +514,16 @@ def run_shard(spec, acc):
     # or manager_tcp.py wire it (other dongle class, platform set accordingly)
     plat5 = ["ledger", "sgx", "tcp"][spec["shard"] % 3]
     acc.count("shards_on_platform_" + plat5)
+    # three shards in eight run under an operator's quieter logging configuration (-l file
+    # with level INFO / WARNING / CRITICAL): what is logged is no part of what is answered
+    loglevel = {5: "WARNING", 6: "INFO", 7: "CRITICAL"}.get(spec["shard"] % 8, "DEBUG")
+    acc.count("shards_logging_at_" + loglevel)
 
     def get_stack(v1):
         if v1 not in st:
             plat = "ledger" if v1 else plat5
             dev = c02.make_device(random.Random(5), plat)
-            s = Stack(dev, version_one=v1)
+            s = Stack(dev, version_one=v1, loglevel=loglevel)
             s.__enter__()
             s.initialize()
             st[v1] = (s, dev)
